@@ -112,17 +112,35 @@ Proof.
 Qed.
 
 (* ------------------------------------------------------------------ errors only grow; lexical errors are conserved *)
-Definition le_st (a b : pst) : Prop := ec a <= ec b /\ lex_total b = lex_total a.
+Lemma wfl_next st : wfl (rest st) -> wfl (rest (next st)).
+Proof.
+  unfold next. destruct (rest st) as [|t [|t2 r]]; cbn [rest]; intros W.
+  - inversion W.
+  - inversion W as [e K | t' r' N W']; subst; [constructor; exact K | inversion W'].
+  - inversion W as [e K | t' r' N W']; subst. exact W'.
+Qed.
+Lemma rest_expect_next k st : rest (expect k st) = rest (next st).
+Proof. unfold expect. destruct (tk_eqb _ _); reflexivity. Qed.
+
+(* ... and the shape of the remainder (ends with its only EOF token) is kept *)
+Definition le_st (a b : pst) : Prop :=
+  ec a <= ec b /\ lex_total b = lex_total a /\ (wfl (rest a) -> wfl (rest b)).
 Lemma le_st_refl a : le_st a a.
-Proof. split; auto. Qed.
+Proof. repeat split; auto. Qed.
 Lemma le_st_trans a b c : le_st a b -> le_st b c -> le_st a c.
-Proof. intros [H1 H2] [H3 H4]. split; [lia | congruence]. Qed.
+Proof. intros (H1 & H2 & H3) (H4 & H5 & H6). split; [lia | split; [congruence | auto]]. Qed.
 Lemma le_next a b : le_st a b -> le_st a (next b).
-Proof. intros [H1 H2]. split; [rewrite ec_next; lia | rewrite lex_total_next; auto]. Qed.
+Proof.
+  intros (H1 & H2 & H3). split; [rewrite ec_next; lia | split; [rewrite lex_total_next; auto|]].
+  intros W. apply wfl_next. auto.
+Qed.
 Lemma le_expect k a b : le_st a b -> le_st a (expect k b).
-Proof. intros [H1 H2]. split; [pose proof (ec_expect_ge k b); lia | rewrite lex_total_expect; auto]. Qed.
+Proof.
+  intros (H1 & H2 & H3). split; [pose proof (ec_expect_ge k b); lia | split; [rewrite lex_total_expect; auto|]].
+  intros W. rewrite rest_expect_next. apply wfl_next. auto.
+Qed.
 Lemma le_err e a b : le_st a b -> le_st a (err e b).
-Proof. intros [H1 H2]. split; [rewrite ec_err; lia | rewrite lex_total_err; auto]. Qed.
+Proof. intros (H1 & H2 & H3). split; [rewrite ec_err; lia | split; [rewrite lex_total_err; auto | exact H3]]. Qed.
 
 Ltac solve_le :=
   repeat first
